@@ -295,6 +295,25 @@ fn near_scalar_pool(ctx: &mut Ctx) -> Vec<Value> {
     v.push(mk(&[("b", Value::make_int(0))]));
     v.push(mk(&[("a", Value::Number(Number { value: 1.0, unit: m })), ("b", Value::make_int(1))]));
     v.push(mk(&[("a", Value::Number(Number { value: 1.0, unit: s })), ("b", Value::make_int(0))]));
+    // records: the same `id` and the same `mod` stamp, everything else equal / one other tag different / one tag more
+    // (what a "same record" shortcut in == would overlook), and the same shapes with another id or another mod
+    {
+        let stamp = |secs: i64| Value::DateTime(DateTime::from(chrono_tz::UTC.timestamp_opt(secs, 0).single().unwrap()));
+        for (id, md, cur, extra) in [
+            ("p1", 1_700_000_000i64, 20.0, false),
+            ("p1", 1_700_000_000, 21.5, false),
+            ("p1", 1_700_000_000, 20.0, true),
+            ("p1", 1_700_000_060, 20.0, false),
+            ("p2", 1_700_000_000, 20.0, false),
+        ] {
+            let mut kvs = vec![("id", Value::make_ref(id)), ("mod", stamp(md)), ("curVal", Value::make_number(cur)), ("dis", Value::make_str("Point"))];
+            if extra {
+                kvs.push(("point", Value::Marker));
+            }
+            v.push(mk(&kvs));
+        }
+        v.push(mk(&[("id", Value::Ref(Ref { value: "p1".into(), dis: Some("shown".into()) })), ("mod", stamp(1_700_000_000)), ("curVal", Value::make_number(20.0)), ("dis", Value::make_str("Point"))]));
+    }
     v.push(Value::List(vec![Value::make_int(1)]));
     v.push(Value::List(vec![Value::make_int(1), Value::make_int(2)]));
     v.push(Value::List(vec![Value::Number(Number { value: 1.0, unit: m }), Value::make_int(2)]));
